@@ -96,7 +96,15 @@ def run_impl(pid, tier):
                     problems.append(f"the emitted wrappers do not compile: {pl.cfail[tgt][cid]}")
         else:
             e = proj_item(obs, ["m", "E"])
-            if t.get("singleton") != oracle["tsingle"]:
+            # body parameters (address, casts, dereferences) are read off the text only when the body has exactly
+            # the emitted template; any other shape is decided by the execution rig, never by reading it
+            t_unknown = oracle["tsingle"] != NONE and t.get("singleton_kind") and t.get("singleton_shape") != "template"
+            e_unknown = oracle["esingle"] != NONE and (e or {}).get("singleton_kind") and (e or {}).get("singleton_shape") != "template"
+            if t_unknown:
+                res.notes.append(f"case {cid}: T::get() has an unrecognised body (not judged statically)")
+                if t.get("singleton_vis") != "pub":
+                    problems.append("T::get() is not public although T is")
+            elif t.get("singleton") != oracle["tsingle"]:
                 problems.append(f"T::get() addresses {t.get('singleton')}, declared {oracle['tsingle']}")
             elif oracle["tsingle"] != NONE:
                 want_cast = {"k": "mptr", "t": {"k": "mptr", "t": SELF}}
@@ -106,7 +114,9 @@ def run_impl(pid, tier):
                                     f"(cast {t.get('singleton_cast')}, derefs {t.get('singleton_derefs')}, returns {t.get('singleton_kind')})")
                 if t.get("singleton_vis") != "pub":
                     problems.append("T::get() is not public although T is")
-            if (e or {}).get("singleton") != oracle["esingle"]:
+            if e_unknown:
+                res.notes.append(f"case {cid}: E::get() has an unrecognised body (not judged statically)")
+            elif (e or {}).get("singleton") != oracle["esingle"]:
                 problems.append(f"E::get() addresses {(e or {}).get('singleton')}, declared {oracle['esingle']}")
             elif oracle["esingle"] != NONE:
                 if e.get("singleton_cast") != {"k": "cptr", "t": SELF} or e.get("singleton_derefs") != 1 or e.get("singleton_kind") != "Self":
@@ -114,7 +124,9 @@ def run_impl(pid, tier):
                                     f"derefs {e.get('singleton_derefs')}, returns {e.get('singleton_kind')})")
             if oracle.get("osingle", NONE) != NONE:
                 eng = proj_item(obs, ["m", "Eng"]) or {}
-                if eng.get("singleton") != oracle["osingle"]:
+                if eng.get("singleton_kind") and eng.get("singleton_shape") != "template":
+                    res.notes.append(f"case {cid}: Eng::get() has an unrecognised body (not judged statically)")
+                elif eng.get("singleton") != oracle["osingle"]:
                     problems.append(f"Eng::get() addresses {eng.get('singleton')}, declared {oracle['osingle']}")
             files = {tuple(f["rel"][:-3].split("/")): f.get("proj") for f in obs.get("files", [])}
             evs = (files.get(("m",)) or {}).get("evals", [])
@@ -126,11 +138,14 @@ def run_impl(pid, tier):
                     problems.append(f"no accessor get_{want['name']}")
                     continue
                 wt = conform._ty_norm(want["ty"])
-                if got["addr"] != want["addr"]:
+                known = got.get("shape") == "template"
+                if not known:
+                    res.notes.append(f"case {cid}: get_{want['name']}() has an unrecognised body (not judged statically)")
+                if known and got["addr"] != want["addr"]:
                     problems.append(f"get_{want['name']}() addresses {got['addr']}, declared {want['addr']}")
                 if got["ret"].get("k") != "mref" or got["ret"].get("life") != "static" or conform._ty_norm(got["ret"].get("t")) != wt:
                     problems.append(f"get_{want['name']}() returns {got['ret']}, declared &'static mut {wt}")
-                if got.get("cast") != {"k": "mptr", "t": wt} or got.get("derefs") != 1:
+                if known and (got.get("cast") != {"k": "mptr", "t": wt} or got.get("derefs") != 1):
                     problems.append(f"get_{want['name']}() does not return a reference to the address itself "
                                     f"(cast {got.get('cast')}, derefs {got.get('derefs')})")
                 if got["vis"] != want["vis"]:
@@ -142,7 +157,8 @@ def run_impl(pid, tier):
                 else:
                     for want in oracle["gevals"]:
                         got = next((x for x in gev if x["name"] == want["name"]), None)
-                        if got is None or got["addr"] != want["addr"] or conform._ty_norm(got["ret"].get("t")) != conform._ty_norm(want["ty"]):
+                        if got is None or (got.get("shape") == "template" and got["addr"] != want["addr"]) \
+                                or conform._ty_norm(got["ret"].get("t")) != conform._ty_norm(want["ty"]):
                             problems.append(f"g::get_{want['name']}() is {got}, declared {want}")
             if ptr == 8 and cid in pl.cfail["host"]:
                 problems.append(f"the emitted accessors do not compile: {pl.cfail['host'][cid]}")
